@@ -73,6 +73,9 @@ func genHistory(r *rand.Rand, id string, mode string, plain bool) Case {
 			si = r.Intn(4)
 		}
 		h := Commit{Author: authors[r.Intn(len(authors))], Date: fmt.Sprintf("2020-%02d-%02d", 1+day/28, 1+day%28), Subject: subjects[si], Cctype: cctypes[si], Ops: []Op{}}
+		if i > 0 && r.Intn(5) == 0 { // written earlier than the commits before it in the log (rebased, cherry-picked)
+			h.Date = fmt.Sprintf("2019-%02d-%02d", 1+r.Intn(12), 1+r.Intn(28))
+		}
 		if plain {
 			h.Author = authors[r.Intn(2)]
 		}
